@@ -115,7 +115,7 @@ impl MemberFunction {
 
 impl Dependencies for MemberFunction {
     fn dependencies(&self) -> Vec<crate::ast::Dependency> {
-        self.body.net_dependencies()
+        crate::ast::crossing_function_boundary(self.body.net_dependencies())
     }
 
     fn supplies(&self) -> Vec<crate::ast::Dependency> {
